@@ -34,6 +34,7 @@ type convSpec struct {
 type convBuilt struct {
 	stream     []byte
 	exp        []expect // reply to every command, in order (greeting banner excluded)
+	cmdSpans   []cmdSpan // every command line of the stream
 	msgStart   []int    // offset where message k's first octet (DATA body / first BDAT line) begins
 	completeAt []int    // offset just after message k's end marker / last octet of its LAST chunk
 	finalIdx   []int    // index in exp of message k's first final reply
@@ -46,7 +47,8 @@ type convBuilt struct {
 func buildConv(s convSpec) convBuilt {
 	var b convBuilt
 	lmtp := s.Mode != 0
-	var cv conv
+	var cvReal conv
+	cv := &spanConv{conv: &cvReal, b: &b}
 	cv.cmd(greetWord(lmtp)+" cli", expect{Code: 250, What: "greeting"})
 	b.nfinal = 1
 	if lmtp {
@@ -92,8 +94,26 @@ func buildConv(s convSpec) convBuilt {
 		b.completeAt = append(b.completeAt, len(cv.buf))
 	}
 	cv.cmd("QUIT", expect{Code: 221, What: "QUIT"})
-	b.stream, b.exp = cv.buf, cv.exp
+	b.stream, b.exp = cvReal.buf, cvReal.exp
 	return b
+}
+
+// spanConv records where each command line of a conversation lies in the
+// stream and how many replies are due before it.
+type spanConv struct {
+	*conv
+	b *convBuilt
+}
+
+func (sc *spanConv) cmd(line string, exp ...expect) {
+	start, before := len(sc.conv.buf), len(sc.conv.exp)
+	sc.conv.cmd(line, exp...)
+	sc.b.cmdSpans = append(sc.b.cmdSpans, cmdSpan{start, len(sc.conv.buf), before})
+}
+
+type cmdSpan struct {
+	start, end int // [start, end) in the stream, CRLF included
+	expBefore  int // replies due for everything in front of this command
 }
 
 func genConvMsg(t *rapid.T, label string, maxPieces int) convMsg {
@@ -254,10 +274,10 @@ func c07Run(c c07Case) Verdict {
 		complete := c.Cut >= b.completeAt[k]
 		if ch := c.Conv.Msgs[k].Chunks; ch != nil && ch[len(ch)-1] == 0 && c.Cut >= b.completeAt[k]-2 && !complete {
 			// "BDAT 0 LAST" arrived without (all of) its CRLF: every octet of
-			// the message has been delivered; whether the unterminated line
-			// counts is not specified.
-			v.Classes = append(v.Classes, "unspecified_unterminated_zero_last")
-			continue
+			// the message has been delivered, but the LAST chunk's command
+			// has not been received in full - judged like any other cut
+			// (it used to be executed: D33)
+			v.Classes = append(v.Classes, "unterminated_zero_last")
 		}
 		if rec.EOF {
 			if !complete {
